@@ -21,7 +21,7 @@
 namespace {
 
 struct Stats {
-  unsigned long total = 0, past_header = 0, accepted = 0, rej_header = 0, rej_body = 0, other_exc = 0, diff_runs = 0, skipped_huge = 0;
+  unsigned long total = 0, past_header = 0, accepted = 0, rej_header = 0, rej_body = 0, other_exc = 0, diff_runs = 0, skipped_huge = 0, page_multiple = 0, diff_page_multiple_accepted = 0;
   unsigned long by_handler[4] = {0, 0, 0, 0}, segs[128] = {0};
 } g_stats;
 
@@ -31,8 +31,8 @@ void dump_stats() {
   FILE* f = fopen(p, "a");
   if (!f) return;
   fprintf(f, "{\"total\":%lu,\"past_header\":%lu,\"accepted\":%lu,\"rej_header\":%lu,\"rej_body\":%lu,\"other_exc\":%lu,\"diff_runs\":%lu,"
-             "\"skipped_huge_header_for_problem_builder\":%lu,\"recorder\":%lu,\"problem\":%lu,\"null\":%lu,\"segs\":{", g_stats.total, g_stats.past_header, g_stats.accepted,
-          g_stats.rej_header, g_stats.rej_body, g_stats.other_exc, g_stats.diff_runs, g_stats.skipped_huge, g_stats.by_handler[0] + g_stats.by_handler[3],
+             "\"page_multiple\":%lu,\"diff_page_multiple_accepted\":%lu,\"skipped_huge_header_for_problem_builder\":%lu,\"recorder\":%lu,\"problem\":%lu,\"null\":%lu,\"segs\":{", g_stats.total, g_stats.past_header, g_stats.accepted,
+          g_stats.rej_header, g_stats.rej_body, g_stats.other_exc, g_stats.diff_runs, g_stats.page_multiple, g_stats.diff_page_multiple_accepted, g_stats.skipped_huge, g_stats.by_handler[0] + g_stats.by_handler[3],
           g_stats.by_handler[1], g_stats.by_handler[2]);
   bool first = true;
   for (int c = 33; c < 127; ++c) if (g_stats.segs[c]) { fprintf(f, "%s\"%c\":%lu", first ? "" : ",", c == '"' || c == '\\' ? '?' : c, g_stats.segs[c]); first = false; }
@@ -244,8 +244,13 @@ extern "C" int LLVMFuzzerTestOneInput(const uint8_t* data, size_t size) {
   bool binary = !text.empty() && text[0] == 'b';
   if (!binary && z != std::string::npos) text.resize(z);
   if (pad && !binary) {
-    size_t target = pad == 1 ? 4096 : pad == 2 ? 4095 : 4097;
-    if (text.size() < target) text.append(target - text.size(), '\n');
+    // bring the text to a multiple of the page size (the file path copies instead of mapping there), one less, or one more.
+    // The filler goes before the last newline, where a text reader skips to the end of the line, so a valid file stays valid.
+    size_t page = 4096, want = pad == 1 ? 0 : pad == 2 ? page - 1 : 1;
+    size_t fill = (want + page - text.size() % page) % page;
+    size_t nl = text.rfind('\n');
+    if (nl == std::string::npos) text.append(fill, ' '); else text.insert(nl, fill, ' ');
+    if (pad == 1) ++g_stats.page_multiple;
   }
   ++g_stats.total; ++g_stats.by_handler[handler];
   Outcome o;
@@ -281,6 +286,7 @@ extern "C" int LLVMFuzzerTestOneInput(const uint8_t* data, size_t size) {
     if (diff && !(binary && z != std::string::npos)) {
       // same bytes through the file path
       ++g_stats.diff_runs;
+      if (o.kind == 0 && !text.empty() && text.size() % 4096 == 0) ++g_stats.diff_page_multiple_accepted;
       int fd = memfd_create("nl", 0);
       if (fd >= 0) {
         if (write(fd, text.data(), text.size()) == (ssize_t)text.size()) {
